@@ -303,7 +303,7 @@ func orderExposed(e string) bool {
 
 var byteAlphabet = []string{"a", "Z", "_", "0", "9", "-", " ", "\t", "\n", "\r", "\v", "\f", ".", "*", "[", "]", "?", "{", "}", "(", ")",
 	",", ":", "|", "&", "!", "=", "<", ">", "@", "\"", "'", "`", "\\", "\x00", "\x7f", "\x80", "\xbf", "\xc3", "\xc3\xa9", "\xe4\xb8\x96",
-	"\xf0\x9f\x98\x80", "\xff", "\xed\xa0\x80", " ", " ", "u", "n", "1e5", "\xc2"}
+	"\xf0\x9f\x98\x80", "\xff", "\xed\xa0\x80", " ", " ", "u", "n", "1e5", "\xc2", "%", "%v", "%s%d", "$", "#", "^", "~", ";", "+", "/"}
 
 // bytes (C05/C17): arbitrary byte strings, valid UTF-8 or not.
 func streamBytes(seed uint64, idx int) caseT {
@@ -479,6 +479,10 @@ func streamTruthNest(seed uint64, idx int) caseT {
 	var build func(d int) string
 	build = func(d int) string {
 		if d == 0 || g.r.chance(25) {
+			if g.r.chance(8) {
+				// an operand that fails when evaluated: `||` / `&&` must not evaluate it unless needed
+				return g.r.pick([]string{"abs(`\"x\"`)", "nosuchfn(@)", "length(`1`)", "`[1]`[::0]", "abs(c)"})
+			}
 			if g.r.chance(40) {
 				return g.r.pick([]string{"a", "b", "c"})
 			}
@@ -532,6 +536,18 @@ func streamSlice(seed uint64, idx int) caseT {
 	}
 	a, b, c := dec(idx%w), dec((idx/w)%w), dec(idx/(w*w))
 	lines := []string{"Y " + strconv.Itoa(n) + " " + a + " " + b + " " + c}
+	if idx%11 == 0 { // two slices with different parts in one expression (state carried from one to the next)
+		arr := make([]interface{}, n)
+		for i := range arr {
+			arr[i] = float64(i)
+		}
+		e1, e2 := sliceExpr(a, b, c), sliceExpr(c, a, "_")
+		if idx%22 == 0 {
+			e2 = sliceExpr("_", "_", b)
+		}
+		d := canonOf(map[string]interface{}{"a": arr})
+		lines = append(lines, "S "+hexField("a"+e1+" | "+e2)+" "+d, "S "+hexField("[a"+e1+", a"+e2+", a"+e1+"]")+" "+d)
+	}
 	if idx%97 == 0 { // the same slice on non-arrays and behind a projection
 		e := sliceExpr(a, b, c)
 		lines = append(lines, "S "+hexField("a"+e)+" "+canonOf(map[string]interface{}{"a": "abc"}),
